@@ -158,10 +158,10 @@ REGISTRY = {
         "trusted_base": COMMON_TRUST, "assumptions": [EXTERNAL, "Snappy compression (write side) and serde derive are exercised, not modelled"],
     },
     "C17": {
-        "level": "proof", "modules": ["SkaModel.Props.C17", "SkaModel.Props.C17Pipe", "SkaModel.Props.C17Paths", "SkaModel.Props.C17Real", "SkaModel.Props.C17Ref", "SkaModel.Props.C17Complete", "SkaModel.Props.C18Derep"], "gen": ["C17"], "cli": [cli.c17_cli],
+        "level": "proof", "modules": ["SkaModel.Props.C17", "SkaModel.Props.C17Pipe", "SkaModel.Props.C17Paths", "SkaModel.Props.C17Real", "SkaModel.Props.C17Ref", "SkaModel.Props.C17Complete", "SkaModel.Props.C17RefComplete", "SkaModel.Props.C18Derep"], "gen": ["C17"], "cli": [cli.c17_cli],
         "rule": "helper inputs (columns over A/C/G/T/-/N, variant groups, writer inputs with and without a genome) vs the model; build_graph on canonical tables vs the model; the reference-free pipeline in-process (entry nodes, every variant group with sequences and marked positions, SNP columns, indel records) vs the model on ska-build tables of SNP/indel families and on dense random tables, one process per case; CLI: planted isolated-SNP families ((k-1)-mers unique on both strands, checked; SNPs >= 2k apart and from the ends; 3-10 samples; k 7-33; threads 1-8; with and without reference) with expected = planted truth, and arbitrary families (close SNPs, indels, missing data, several -m) for well-formedness; non-trivial = distinct helper cases with a value / families that ran",
         "trusted_base": COMMON_TRUST + ["hooked private helpers (feature verif-hooks): complement_snp, get_potential_snp, create_fasta_and_vcf, check_missing_data; the guarded sink record_groups in build_variant_groups"],
-        "assumptions": [EXTERNAL, "completeness is proved for the reference-free caller (T17_complete); true coordinates with a reference (positioning.rs) are decided by oracle runs, not by theorem; the pipeline model is tied to the code by correspondence, not by translation"],
+        "assumptions": [EXTERNAL, "completeness is proved for the reference-free caller (T17_complete) and, with the ancestor as reference, true coordinates / alleles / pseudo-genomes under SiteOK (T17_ref_complete, T17_ref_output); other references are decided by oracle runs; the pipeline model is tied to the code by correspondence, not by translation"],
     },
     "C18": {
         "level": "exploration", "modules": ["SkaModel.Props.C18", "SkaModel.Props.C18Derep", "SkaModel.Props.C17Pipe", "SkaModel.Props.C17Paths"], "gen": ["C18"], "cli": [cli.c18_cli],
